@@ -404,6 +404,28 @@ def part_refcats(ck, rng):
         if t < 3:
             ck.sample({'object': 'RefCatalog', 'crval': list(crval), 'sources': n, 'footprint_tol': tol,
                        'predicate_holds': ok})
+    # --- wide reference catalogs (radius 0.5 .. 1.5 degrees): the curvature of the sky matters at the 0.1 .. 2 arcsec level
+    for t in range(ck.n(18, 200)):
+        crval = SKY[(t * 13 + 6) % len(SKY)]
+        R = [0.5, 1.0, 1.5][t % 3]
+        w = mkwcs(crval, rng.random() * 360.0, scale=R / 512.0)
+        n = [12, 30, 60][(t // 3) % 3]
+        x, y = rand_xy(rng, n)
+        ra, dec = w.all_pix2world(np.array(x), np.array(y), 0)
+        ck.count('catalog_kind', 'refcat-wide')
+        ck.count('refcat_wide_radius_deg', R)
+        rp = {'object': 'RefCatalog', 'RA': list(map(float, ra)), 'DEC': list(map(float, dec)), 'footprint_tol': 1.0,
+              'tightness': True, 'field_radius_deg': R,
+              'how': "RefCatalog(Table([RA, DEC], names=('RA','DEC')), footprint_tol=1.0) with sources spread over a "
+                     "field of this radius"}
+        try:
+            rc = make_refcat(ra, dec, 1.0)
+        except Exception as e:       # noqa: BLE001
+            rp.update(kind='RefCatalog-construction-failed', exception=repr(e))
+            ck.violation(rp)
+            continue
+        check_containment(ck, 'refcat-wide', rc.polygon, [s2c(ra, dec)], rp)
+        ck.case(('refcat-wide', list(map(float, ra)), list(map(float, dec))), True)
     # --- three or more ROWS but only two distinct positions (repeated sources), and exactly collinear runs: the hull
     #     degenerates to a segment and the footprint is the box of the two-source case
     for t in range(ck.n(30, 300)):
